@@ -235,6 +235,22 @@ def run(run):
                 got = {_strip(x) for x in PV.expand_consistent(sx, None, d[k], cn, stop=("envelope",))}
                 run.check("R3", got == {_strip(w)}, f"`{key[1]}`.{k} from the matching envelope field", key=f"sgx_attestation|{key[1]}|{k}",
                           where=sx.loc(c), message=f"`{key[1]}`.{k} is {sorted(got)[:1]}, expected `{w}`")
+    # gathered fields that may legitimately be empty must be accepted empty by the class that stores them
+    QA = P.cls("sgx.envelope.SgxQeAuthData")
+    qi = P.method(QA, "__init__")
+    qf = F.exit_texts(qi, QA, PV)
+    lower = sorted(t for t in qf if re.search(r"\bsize\b", t) and re.search(r"(> 0|>= 1|!= 0)", t))
+    if lower:
+        run.ok("R3", f"the envelope parser itself requires non-empty QE auth data ({lower[0]})", qi.loc())
+    else:
+        AK = P.cls("admin.certificate_v2.HSMCertificateV2ElementSGXAttestationKey")
+        ak = P.method(AK, "__init__")
+        need = [t for t in F.exit_texts(ak, AK, PV) if "auth_data" in t and "is_nonempty_hex_string" in t and not t.startswith("not ")]
+        run.check("R3", not need, "QE auth data may be empty (sgx_qe_auth_data_t.size is a free uint16): the attestation element accepts it",
+                  key="sgx_attestation|attestation|auth_data|empty-rejected", where=ak.loc(),
+                  message="the envelope parser accepts a quote with 0 bytes of QE auth data (sgx_qe_auth_data_t.size is unconstrained) and do_attestation "
+                          f"stores it as auth_data = ''; but HSMCertificateV2ElementSGXAttestationKey requires `{need[0] if need else ''}`: gathering the "
+                          "attestation of such a genuine device fails with ValueError")
     ed = defs_of(A, sx, "envelope")
     run.check("R3", [norm(d.value) for d in ed] == ["SgxEnvelope(bytes.fromhex(powhsm_attestation['envelope']), bytes.fromhex(powhsm_attestation['message']))"],
               "envelope parsed from the gathered envelope and message", key="sgx_attestation|envelope-source", where=sx.loc(),
